@@ -93,7 +93,8 @@ Record Cfg := {
   c_fixed_iv : list Z;      (* sender's RecordLayer.fixedIVBlock *)
   c_send_limit : Z;         (* sender's RecordLayer.send_record_limit *)
   c_recv_limit : Z;         (* receiver's RecordLayer.recv_record_limit *)
-  c_pad_cb : option (Z -> Z -> Z -> Z)   (* sender's padding_cb(length, type, max_padding) *)
+  c_pad_cb : option (Z -> Z -> Z -> Z);  (* sender's padding_cb(length, type, max_padding) *)
+  c_plain_alert : bool      (* receiver's RecordLayer.allow_plaintext_alert (TLS 1.3: True until _handshakeDone) *)
 }.
 
 Record St := { st_cs : CS; st_seq : Z }.
@@ -305,13 +306,16 @@ Definition unprotect (c : Cfg) (P : Prim) (s : St) (w : Wire) : rres (St * (Z * 
   if c_tls13 c && (n >? c_recv_limit c + 256) then RErr EOverflow else
   let t13 := is_tls13_plus c in
   '(s1, d1) <~ (if t13 && (hty =? 20) then ROk (s, body)
-                else if t13 && (hty =? 21) && (n <? 3) && c_has_enc c && (st_seq s =? 0) then ROk (s, body)
+                else if t13 && c_plain_alert c && (hty =? 21) && (n <? 3) && c_has_enc c && (st_seq s =? 0) then ROk (s, body)
                 else if c_has_enc c && c_aead c then decrypt_and_unseal c P s w
                 else if c_etm c then mac_then_decrypt c P s hty body
                 else if c_has_enc c && c_block c then decrypt_then_mac c P s hty body
                 else decrypt_stream_then_mac c P s hty body) ;;
   '(ty, d2) <~ (if t13 && c_has_enc c && (hty =? 23) then
-                  if zlen d1 >? c_recv_limit c + 1 then RErr EOverflow else de_pad d1
+                  if zlen d1 >? c_recv_limit c + 1 then RErr EOverflow else
+                  '(ty, d2) <~ de_pad d1 ;;
+                  if ty =? 20 then RErr EUnexpected          (* RFC 8446 section 5: protected change_cipher_spec *)
+                  else ROk (ty, d2)
                 else ROk (hty, d1)) ;;
   if zlen d2 >? c_recv_limit c then RErr EOverflow else ROk (s1, (ty, d2)).
 
